@@ -116,6 +116,24 @@ func (rc *rangeCtx) injectiveKey(key ast.Expr) (bool, string) {
 	key = rc.resolve(key, 0)
 	var parts []ast.Expr
 	flattenConcat(key, &parts)
+	// an operand computed by a call (merge(key), strings.ToLower(x) …) can map different inputs to one key
+	for _, p := range parts {
+		if tv, ok := rc.info.Types[p]; ok && tv.Value != nil {
+			continue
+		}
+		hasCall := false
+		ast.Inspect(p, func(n ast.Node) bool {
+			if c, ok := n.(*ast.CallExpr); ok {
+				if tv, ok := rc.info.Types[c.Fun]; !ok || !tv.IsType() {
+					hasCall = true
+				}
+			}
+			return true
+		})
+		if hasCall {
+			return false, "the key " + exprStr(key) + " is computed by a call, so different elements can map to the same key"
+		}
+	}
 	if len(parts) == 1 {
 		return true, "single operand"
 	}
@@ -593,7 +611,10 @@ func (rc *rangeCtx) assign(l, r ast.Expr, tok token.Token, s ast.Stmt) {
 					sub = false
 				}
 			}
+			sameAsKey := exprStr(rc.resolve(r, 0)) == exprStr(rc.resolve(ix.Index, 0))
 			switch {
+			case sameAsKey:
+				rc.notes = append(rc.notes, "store of the key itself into "+exprStr(ix.X)+" (idempotent)")
 			case len(valAtoms) == 0:
 				rc.notes = append(rc.notes, "store of a loop-independent value into "+exprStr(ix.X)+" (idempotent whatever the key)")
 			case !inj:
